@@ -214,6 +214,9 @@ BAD_TEMPLATES = [
     ("a.nope > {v}", {}, "unresolvable function (dotted)"),
     ("nope.b > {v}", {}, "unresolvable function (dotted)"),
     ("/c18env/nofn > {v}", {}, "unresolvable reference"),
+    ("/sys/exit > {v}", {}, "unresolvable reference (built-in module without a file)"),
+    ("{fn} > {v}:@__x", {}, "tag name that the tag factory refuses"),
+    ("{fn}({ctx}:@__) > {v}", {}, "tag name that the tag factory refuses"),
     ("/./f > {v}", {}, "unresolvable reference (module '.')"),
     ("/.. > {v}", {}, "unresolvable reference (module '..')"),
     ("/../f > {v}", {}, "unresolvable reference (module '..')"),
